@@ -86,6 +86,9 @@ func (v *Vue) RenderNodes(w io.Writer, nodes []*html.Node, data any) error {
 func (v *Vue) renderNodesWithContext(ctx VueContext, w io.Writer, nodes []*html.Node) error {
 	nodeCopy := make([]*html.Node, 0, len(nodes))
 	for i := 0; i < len(nodes); i++ {
+		if nodes[i] == nil {
+			continue // (RenderNodes takes the caller's slice: a nil entry is nothing to render)
+		}
 		nodeCopy = append(nodeCopy, helpers.DeepCloneNode(nodes[i]))
 	}
 
